@@ -281,11 +281,29 @@ def _install_format() -> None:
     _cc._PATCH_REGISTRATIONS[str] = _str
 
 
+def _disable_opportunistic_shortcircuit() -> None:
+    """CrossHair may skip a call to a contract-bearing function whose arguments are all symbolic
+    (e.g. its own `_repr`) and continue with a fresh symbolic return value, choosing at random via a
+    ParallelNode per call.  It is a search heuristic only; in harnesses that format objects it
+    multiplied identical paths (x7 measured).  Always call into the function instead."""
+    import crosshair.core as cc
+
+    orig = cc.consider_shortcircuit
+
+    def consider(fn, sig, bound, subconditions, allow_interpretation):
+        if allow_interpretation:
+            return None
+        return orig(fn, sig, bound, subconditions, allow_interpretation)
+
+    cc.consider_shortcircuit = consider
+
+
 def install() -> None:
     global _INSTALLED
     if _INSTALLED:
         return
     _INSTALLED = True
+    _disable_opportunistic_shortcircuit()
     _install_bitops()
     _install_counters()
     _install_format()
